@@ -1424,6 +1424,8 @@ def replay(chk, data):
                                    "choices": inp.get("choices", [])}
         elif isinstance(inp, dict) and "op" in inp and "a" in inp:
             kind, r = "mutation", {"request": inp["a"], "opname": inp["op"]}
+        elif isinstance(inp, dict) and "operation" in inp and "hypothesis_seed" in inp:
+            kind, r = "real", inp
         else:
             return 0
     if kind == "scripted":
@@ -1452,7 +1454,8 @@ def replay(chk, data):
         print("recorded :", json.dumps({k: r.get(k) for k in ("components", "values", "verdicts", "location", "schema")},
                                        default=str)[:3000])
     elif kind == "mutation":
-        a = r["request"]
+        a = dict(r["request"])
+        a.setdefault("variant", NEGATE_VARIANT[0])
         opname = r.get("opname") or ("negate" if "candidate" in a else "changeType" if "choice" in a else "removeRequired")
         print("model now:", json.dumps(drv.one(opname, a), default=str)[:2000])
         fn = {"negate": M.negate_constraints, "changeType": M.change_type, "removeRequired": M.remove_required_property}.get(opname)
